@@ -8,21 +8,43 @@ from ..ref import report, topology as rtop
 
 ID = 'C09'
 RULE = ('Generated: rule-conforming wire structures (trees, stars of 2..5 ends at one junction, closed polygon '
-        'loops, two components; free space and ideal ground; random wire order, direction, tags; 1..3 complex '
-        'sources).  Oracle: CURRENT DATA block parsed from the report vs reference topology: E line with zeros at '
+        'loops, two components; free space and ideal ground; random wire order, direction, tags; a quarter of the '
+        'cases with one or two wires moved into place by a per-tag translation; 1..3 complex sources).  Oracle: CURRENT DATA block parsed from the report vs reference topology: E line with zeros at '
         'every free end, J value = signed sum of the solved pulse currents through that wire end, printed J values '
         'sum to zero at every junction.  Non-trivial = some junction has degree >= 3, or >= 2 later wires on the '
         'first end of an earlier wire, or the structure is a closed loop.  Distinct = SHA-1 of the case JSON.')
 BUDGET = {'quick': {'examples': 1600, 'wall': 150}, 'thorough': {'examples': 40000, 'wall': 1500}}
 ASSUMPTIONS = ['reference topology (pv/ref/topology.py) as validated by C12',
                'report parser (pv/ref/report.py) validated against the golden reports']
-LABEL_FLOORS = {'deg>=3': 0.10, 'rep-end1-multi': 0.03, 'loop': 0.05, 'ground': 0.15}
+LABEL_FLOORS = {'deg>=3': 0.10, 'rep-end1-multi': 0.03, 'loop': 0.05, 'ground': 0.15, 'assembled-by-translation': 0.1}
+
+
+@st.composite
+def case_strategy(draw, big=False):
+    case = draw(gen.antenna(env_kinds=('free', 'free', 'ideal'), max_wires=6 if big else 5, max_seg=6 if not big else 10,
+                            tapers=False, nsrc=(1, 3), star=5, allow_two=True))
+    if len(case['objs']) >= 2 and draw(st.integers(0, 3)) == 0:
+        # one or two wires are described somewhere else and moved into place by a translation of their tag, the
+        # way structures are assembled with --geo-translate; the junctions exist only after the move
+        build.assign_tags(case)
+        lam = gen.C_MHZ_M / case['f']
+        ground = case['env']['kind'] != 'free'
+        k0 = max([x['key'] for x in case['xforms']] + [0.0]) + 1
+        for n, i in enumerate(draw(st.lists(st.integers(0, len(case['objs']) - 1), min_size=1, max_size=2, unique=True))):
+            o = case['objs'][i]
+            if o.get('type', 'wire') != 'wire':
+                continue
+            v = [gen.r6(draw(st.floats(-2, 2)) * lam), gen.r6(draw(st.floats(-2, 2)) * lam),
+                 0.0 if ground else gen.r6(draw(st.floats(-2, 2)) * lam)]
+            o['p1'] = [float(a - b) for a, b in zip(o['p1'], v)]
+            o['p2'] = [float(a - b) for a, b in zip(o['p2'], v)]
+            case['xforms'].append({'kind': 'translate', 'key': float(k0 + n), 'v': v, 'tag': o['_tag']})
+        case['_info'] = dict(case.get('_info') or {}, assembled=True)
+    return case
 
 
 def strategy(tier):
-    big = tier == 'thorough'
-    return gen.antenna(env_kinds=('free', 'free', 'ideal'), max_wires=6 if big else 5, max_seg=6 if not big else 10,
-                       tapers=False, nsrc=(1, 3), star=5, allow_two=True)
+    return case_strategy(big=tier == 'thorough')
 
 
 def classify(topo):
@@ -72,9 +94,14 @@ def check(case):
         nt = True
     if build.has_ground(case):
         labels.append('ground')
+    if any(x.get('tag') is not None for x in case.get('xforms') or []):
+        labels.append('assembled-by-translation')
     fails = []
     cur = np.asarray(m.current)
     imax = float(np.abs(cur).max()) or 1.0
+    if len(cur) != len(topo.pulses):
+        return Result(fails=[('structure:pulse-count', 'the program has %d pulses, the end points of the antenna give %d'
+                              % (len(cur), len(topo.pulses)))], nontrivial=nt, labels=labels)
     if len(rep['currents']) != len(topo.objs):
         return Result(fails=[('structure:block-count', '%d blocks for %d objects' % (len(rep['currents']), len(topo.objs)))],
                       nontrivial=nt, labels=labels)
